@@ -27,6 +27,8 @@ INJECT_KANI = {
     "netconf": {
         "lib.rs": [("verif_support", "harness/netconf/support.rs")],
         "message/rpc/mod.rs": [("verif_replies", "harness/netconf/replies.rs")],
+        "message/rpc/error.rs": [("verif_error", "harness/netconf/error.rs")],
+        "message/rpc/operation/junos/load_configuration.rs": [("verif_load", "harness/netconf/load.rs")],
         "message/rpc/operation/mod.rs": [("verif_ops", "harness/netconf/ops.rs")],
         "message/hello.rs": [("verif_hello", "harness/netconf/hello.rs")],
         "session.rs": [("verif_session", "harness/netconf/session.rs")],
@@ -73,6 +75,8 @@ default = ["ssh", "tls", "junos"]
 ssh = []
 tls = []
 junos = []
+# deeper bounds in the harnesses (thorough tier)
+verif_deep = []
 
 [dependencies]
 async-trait = "0.1"
@@ -106,8 +110,13 @@ autobins = false
 name = "bgpfu_junos_agent"
 path = "src/lib.rs"
 
+[features]
+verif_deep = ["bgpfu-netconf/verif_deep"]
+
 [dependencies]
 anyhow = "1"
+async-trait = "0.1"
+bytes = "1"
 chrono = "0.4"
 clap = {{ version = "4", features = ["derive"] }}
 clap-verbosity-flag = "2"
@@ -305,6 +314,18 @@ def copy_src(repo, crate, out, kani, log):
                     fh.write(new)
 
 
+def snapshot_harness_dirs(out):
+    """copy /verif/harness and /verif/replay into the build dir, so that a run is not disturbed
+    by edits made while it is in progress (and `include!`s stay relative)"""
+    for d in ("harness", "replay"):
+        src = os.path.join(VERIF, d)
+        dst = os.path.join(out, d)
+        if os.path.exists(dst):
+            shutil.rmtree(dst)
+        if os.path.exists(src):
+            shutil.copytree(src, dst)
+
+
 def inject(out, crate, table, cfg, log):
     for rel, mods in table.get(crate, {}).items():
         p = os.path.join(out, crate, "src", rel)
@@ -314,7 +335,7 @@ def inject(out, crate, table, cfg, log):
             continue
         extra = []
         for name, harness in mods:
-            hp = os.path.join(VERIF, harness)
+            hp = os.path.join(os.path.abspath(out), harness)
             if not os.path.exists(hp):
                 continue
             extra.append(f'\n#[cfg({cfg})]\n#[allow(warnings, clippy::all, clippy::pedantic, clippy::nursery)]\n#[path = "{hp}"]\npub(crate) mod {name};\n')
@@ -335,6 +356,7 @@ def main():
     crates = args.crates.split(",")
     os.makedirs(args.out, exist_ok=True)
     rewrite_log, inject_log = [], []
+    snapshot_harness_dirs(args.out)
     for crate in crates:
         os.makedirs(os.path.join(args.out, crate), exist_ok=True)
         copy_src(args.repo, crate, args.out, kani, rewrite_log)
